@@ -92,6 +92,45 @@ def generate(ctx):
                "s": subseed("c01", ctx.seed, "cfg", ctx.shard, i)}
 
 
+STREAM_MAGIC = b"\x00\x00\x00\x0f\xc4\x0dRECORDSTREAM\n"
+
+
+def consume(ctx, rd):
+    """Read everything from a reader the way applications do - not always in one uninterrupted loop: peek at the first
+    record and then loop over the same reader, take batches with islice, break out of a loop and come back.  Every
+    pattern must deliver every record exactly once, in order."""
+    import itertools
+
+    n = ctx.evaluations
+    mode = ("full", "peek", "batches", "break")[n % 4]
+    ctx.event("reader_usage:" + mode)
+    if mode == "full":
+        return list(rd)
+    out = []
+    if mode == "peek":
+        first = next(iter(rd), None)
+        if first is not None:
+            out.append(first)
+        out.extend(rd)
+        return out
+    if mode == "batches":
+        k = 1 + n % 3
+        while True:
+            batch = list(itertools.islice(rd, k))
+            if not batch:
+                return out
+            out.extend(batch)
+    for r in rd:  # "break": leave the loop after a few records, then carry on with a new loop
+        out.append(r)
+        if len(out) >= 2:
+            break
+    import gc
+
+    gc.collect()  # the abandoned iterator is finalised before the reader is used again
+    out.extend(rd)
+    return out
+
+
 def roundtrip(ctx, records, via):
     """Write with the real writer, read with the real reader; -> list of records read."""
     from flow.record import RecordReader, RecordStreamReader, RecordStreamWriter, RecordWriter
@@ -104,22 +143,35 @@ def roundtrip(ctx, records, via):
         w.flush()
         data = buf.getvalue()
         w.fp = None  # keep BytesIO readable; the writer would close it
-        return list(RecordStreamReader(io.BytesIO(data)))
+        return consume(ctx, RecordStreamReader(io.BytesIO(data)))
     ext = ".records.gz" if via == "path.gz" else ".records"
     path = os.path.join(ctx.state["tmp"], "c%d%s" % (ctx.evaluations, ext))
+    uri = path
+    if via == "path" and ctx.evaluations % 3 == 0:
+        # the record stream is asked for EXPLICITLY (stream:// scheme) under a file name whose extension belongs to another
+        # adapter: the scheme decides
+        path = os.path.join(ctx.state["tmp"], "c%d%s" % (ctx.evaluations, (".json", ".csv", ".jsonl", ".avro", ".txt")[(ctx.evaluations // 3) % 5]))
+        uri = "stream://" + path
+        ctx.event("explicit_stream_scheme_with_foreign_extension")
     try:
-        w = RecordWriter(path)
+        w = RecordWriter(uri)
         for r in records:
             w.write(r)
         w.flush()
         w.close()
+        if uri != path:
+            with open(path, "rb") as f:
+                head = f.read(len(STREAM_MAGIC))
+            if head != STREAM_MAGIC:
+                ctx.violation(None, "RecordWriter('stream://...') did not write a record stream (the file does not start with the stream header)",
+                              detail={"uri": "stream://<tmp>/" + os.path.basename(path), "file_starts_with": head.hex()})
         if via == "fileobj":
             with open(path, "rb") as f:
                 rd = RecordReader(fileobj=f)
-                return list(rd)
-        rd = RecordReader(path)
+                return consume(ctx, rd)
+        rd = RecordReader(uri)
         try:
-            return list(rd)
+            return consume(ctx, rd)
         finally:
             rd.close()
     finally:
